@@ -35,6 +35,7 @@ impl Expr {
     #[verifier::external_body] pub fn abs(a: Expr) -> (r: Expr) ensures forall|row: Row| #[trigger] r.at(row) == r_abs(a.at(row)) { unimplemented!() }
     #[verifier::external_body] pub fn pow(a: Expr, b: Expr) -> (r: Expr) ensures forall|row: Row| #[trigger] r.at(row) == r_pow(a.at(row), b.at(row)) { unimplemented!() }
     #[verifier::external_body] pub fn cast_as_integer(a: Expr) -> (r: Expr) ensures forall|row: Row| #[trigger] r.at(row) == r_round(a.at(row)) { unimplemented!() }
+    #[verifier::external_body] pub fn coalesce(a: Expr, b: Expr) -> (r: Expr) ensures forall|row: Row| #[trigger] r.at(row) == (if null_flag(a, row) { b.at(row) } else { a.at(row) }) { unimplemented!() }
     #[verifier::external_body] pub fn is_null(a: Expr) -> (r: Expr) ensures forall|row: Row| #[trigger] r.at(row) == (if null_flag(a, row) { 1real } else { 0real }) { unimplemented!() }
     #[verifier::external_body] pub fn case(c: Expr, a: Expr, b: Expr) -> (r: Expr) ensures forall|row: Row| #[trigger] r.at(row) == (if c.at(row) != 0real { a.at(row) } else { b.at(row) }) { unimplemented!() }
     #[verifier::external_body] pub fn gt(a: Expr, b: Expr) -> (r: Expr) ensures forall|row: Row| #[trigger] r.at(row) == (if a.at(row) > b.at(row) { 1real } else { 0real }) { unimplemented!() }
